@@ -104,11 +104,11 @@ func c05r1(r *R) {
 			}
 		}
 		r.check(okOuter, "HTTPProxy."+w.fn+"#nil-passthrough", fn.Pos(), "no upstream configured stays 'no upstream'", w.fn+" does not preserve a nil proxy function")
-		if len(fn.AnonFuncs) != 1 {
+		if len(anonFuncs(fn)) != 1 {
 			r.bad("HTTPProxy."+w.fn+"#wrapper", fn.Pos(), "wrapper closure missing")
 			continue
 		}
-		lit := fn.AnonFuncs[0]
+		lit := anonFuncs(fn)[0]
 		lps, _ := enumPaths(lit, 16, 1)
 		var why []string
 		for _, p := range lps {
@@ -128,7 +128,7 @@ func c05r1(r *R) {
 func c05r2(r *R) {
 	in := r.method(mpkg, "Proxy", "init")
 	var lit *ssa.Function
-	for _, l := range in.AnonFuncs {
+	for _, l := range anonFuncs(in) {
 		lit = l
 	}
 	if lit == nil {
@@ -383,10 +383,10 @@ func c05r4(r *R) {
 
 func c05r5(r *R) {
 	fn := r.fn(".", "DialRedirectFromHostPortPairs")
-	if len(fn.AnonFuncs) != 1 {
+	if len(anonFuncs(fn)) != 1 {
 		r.missing("redirect closure")
 	}
-	lit := fn.AnonFuncs[0]
+	lit := anonFuncs(fn)[0]
 	ps, _ := enumPaths(lit, 4096, 1)
 	const h, pt = "net.SplitHostPort($1)#0", "net.SplitHostPort($1)#1"
 	var why []string
